@@ -57,3 +57,24 @@ func WithFileSizeLimit(n uint64, f func()) error {
 	f()
 	return nil
 }
+
+// WithNoFileDescriptors runs f while this process cannot obtain any new file descriptor: the soft
+// RLIMIT_NOFILE is lowered to 0 for the duration, so every open/openat/socket/pipe fails with EMFILE
+// ("too many open files") - a real resource error from the kernel. Descriptors that are already open
+// keep working. Process-wide like WithFileSizeLimit (same mutex, same caveats).
+func WithNoFileDescriptors(f func()) error {
+	fsizeMu.Lock()
+	defer fsizeMu.Unlock()
+	var old syscall.Rlimit
+	if err := syscall.Getrlimit(syscall.RLIMIT_NOFILE, &old); err != nil {
+		return err
+	}
+	lim := old
+	lim.Cur = 0
+	if err := syscall.Setrlimit(syscall.RLIMIT_NOFILE, &lim); err != nil {
+		return err
+	}
+	defer syscall.Setrlimit(syscall.RLIMIT_NOFILE, &old)
+	f()
+	return nil
+}
